@@ -161,6 +161,25 @@ Definition read_all (w : wal) (snap : option (N * N))
       end
   end.
 
+(** ---- write units: what reaches the database as one transaction / one bulk flush ----
+    A crash leaves a prefix of the units of the operation in progress.  WriteRaftEntry,
+    WriteHardState, WriteSnapshot, WriteIdentity are one transaction each; ClearWAL is a
+    transaction (identity, hard state, snapshot deleted) followed by a bulk (entries 1..last and
+    r_last deleted, [last] read in between); ResetWAL is ClearWAL, then three more
+    transactions (hard state, snapshot, r_last := commit); WalDB.SaveEntry is WriteRaftEntry
+    followed by WriteHardState — "hardstate must save after entries". *)
+Inductive wunit :=
+| UClearMeta                 (* delete r_identity, r_state, r_snap *)
+| UClearEntries              (* delete r_entry.1 .. r_entry.last and r_last *)
+| USetLast (n : N).          (* r_last := n *)
+Definition apply_unit (w : wal) (u : wunit) : wal :=
+  match u with
+  | UClearMeta => mk_wal (w_ent w) (w_last w) (w_inv w) (w_blocks w) (w_cc w) None None None
+  | UClearEntries => mk_wal (del_range (w_ent w) 1 (last_index w)) None (w_inv w) (w_blocks w) (w_cc w)
+                            (w_hs w) (w_snap w) (w_id w)
+  | USetLast n => mk_wal (w_ent w) (Some n) (w_inv w) (w_blocks w) (w_cc w) (w_hs w) (w_snap w) (w_id w)
+  end.
+
 (** ---- operations of a history and the reference log ---- *)
 Inductive wop :=
 | WWrite (items : list bitem)
@@ -168,7 +187,8 @@ Inductive wop :=
 | WSnap (s : N * N * N)
 | WIdent (i : N * N * N * N)
 | WClear
-| WReset (term commit : N).
+| WReset (term commit : N)
+| WUnit (u : wunit).            (* one write unit of ClearWAL / ResetWAL on its own (crash points) *)
 
 Definition wstep (w : wal) (o : wop) : option wal :=
   match o with
@@ -178,7 +198,17 @@ Definition wstep (w : wal) (o : wop) : option wal :=
   | WIdent i => Some (write_identity w i)
   | WClear => Some (clear_wal w)
   | WReset t c => Some (reset_wal w t c)
+  | WUnit u => Some (apply_unit w u)
   end.
+(** the write units of an operation, in the order the code issues them *)
+Definition units_of (o : wop) : list wop :=
+  match o with
+  | WClear => [WUnit UClearMeta; WUnit UClearEntries]
+  | WReset t c => [WUnit UClearMeta; WUnit UClearEntries; WHard (t, 0, c); WSnap (c, t, best_snap); WUnit (USetLast c)]
+  | _ => [o]
+  end.
+(** WalDB.SaveEntry(hard state, entries) *)
+Definition save_units (items : list bitem) (hs : N * N * N) : list wop := [WWrite items; WHard hs].
 Fixpoint wrun (w : wal) (ops : list wop) : option wal :=
   match ops with
   | [] => Some w
